@@ -827,24 +827,8 @@ def c20(ctx):
     ctx.assumptions = ["data-race freedom is observed by the Go race detector on the schedules that occurred, not proved",
                        "every concurrent call gets its own copy of its input (the statement speaks of distinct inputs)"]
     ctx.build(race=True)
-    # the sequential objects the concurrent calls must be equivalent to (Versions.tla): every transition of the
-    # registry / version provider / namespace provider model is replayed on the real objects
     deep = ctx.tier != "quick"
-    _, vs = ctx.tlc_pipe("MC_Versions.tla", "MC_Versions.cfg", ["versions-replay"], workers=4,
-                         overrides={"MaxReg": 2} if deep else None,
-                         label="Versions.tla: registry (Register / CreateClientVersion, version matching)")
-    ctx.tlc_pipe("MC_Versions.tla", "MC_Versions_prov.cfg", ["versions-replay"], workers=4,
-                 overrides={"MaxVers": 3, "MaxProv": 2} if deep else None,
-                 label="Versions.tla: version provider (New / Current / Get) and namespace provider")
-
-    def vwrong(rec):
-        rec["ok"] = not rec["ok"]
-
-    ctx.negctl_replay(["versions-replay"], vs["_first_edge"], vwrong)
     if deep:
-        ctx.tlaps_check("VersionsProofs.tla", needs=("Versions.tla",), abstract_ops=False,
-                        label="TLAPS: version matching is an equivalence on all strings and looks at two parts; the "
-                              "built-in protocol is never lost")
         n = ctx.tlaps_check("RegistryProofs.tla", needs=("Registry.tla",), abstract_ops=False,
                             label="TLAPS: IndInv inductive => MutualExclusion, MapIsSpec, LookupSeesSpec for any number "
                                   "of processes, keys, values and calls")
@@ -979,7 +963,40 @@ def c12(ctx):
     c12_composer(ctx)
 
 
+
+# ---------------------------------------------------------------------------------------------
+# EXT: behaviour specified beyond the listed properties (never a verdict on a property)
+
+def ext(ctx):
+    ctx.level = "model_checking"
+    ctx.rule = ("Specifications of behaviour the listed properties do not speak about, bound to the code in the same way "
+                "(every transition of the model replayed on the real objects): Versions.tla - version strings and "
+                "matching, the client-version registry, the version provider, the namespace provider, sequentially; "
+                "VdrApi.tla - VDR.Accept / Update / Deactivate / Close. A disagreement is reported as NONCONFORMANCE with "
+                "the extension specification, not as a violation of a property.")
+    deep = ctx.tier != "quick"
+    _, vs = ctx.tlc_pipe("MC_Versions.tla", "MC_Versions.cfg", ["versions-replay"], workers=4,
+                         overrides={"MaxReg": 2} if deep else None,
+                         label="Versions.tla: registry (Register / CreateClientVersion, version matching)")
+    ctx.tlc_pipe("MC_Versions.tla", "MC_Versions_prov.cfg", ["versions-replay"], workers=4,
+                 overrides={"MaxVers": 3, "MaxProv": 2} if deep else None,
+                 label="Versions.tla: version provider (New / Current / Get) and namespace provider")
+
+    def vwrong(rec):
+        rec["ok"] = not rec["ok"]
+
+    ctx.negctl_replay(["versions-replay"], vs["_first_edge"], vwrong)
+    _, va = ctx.tlc_pipe("MC_VdrApi.tla", "MC_VdrApi.cfg", ["vdrapi-replay"], workers=2,
+                         label="VdrApi.tla: Accept (method x hint x DID parts), Update / Deactivate / Close, fresh and closed VDR")
+    ctx.negctl_replay(["vdrapi-replay"], va["_first_edge"], vwrong)
+    if deep:
+        ctx.tlaps_check("VersionsProofs.tla", needs=("Versions.tla",), abstract_ops=False,
+                        label="TLAPS: version matching is an equivalence on all strings and looks at two parts; the "
+                              "built-in protocol is never lost")
+    ctx.exhaustive = True
+
 CHECKS = {
+    "EXT": ext,
     "C01": c01,
     "C02": c02,
     "C03": c03,
